@@ -402,6 +402,100 @@ def call_calculators(module, rng):
     return calls
 
 
+# ---------------------------------------------------------------------------------------------
+# the same table through every channel a user can read it from
+# ---------------------------------------------------------------------------------------------
+
+def channels(ctx, mod, rows, when):
+    """Dimension and value of every constant read (a) from the object's attributes (what the lemmas are about), (b) from
+    the SI unit-system registry and (c) through SymPy's own convert_to to the SI base units must agree."""
+    from sympy.physics import units as U  # pylint: disable=import-outside-toplevel
+    from sympy.physics.units import convert_to as sym_convert_to, Quantity as SymQ  # pylint: disable=import-outside-toplevel
+    from sympy.physics.units.systems.si import SI  # pylint: disable=import-outside-toplevel
+    base_units = [U.meter, U.kilogram, U.second, U.ampere, U.kelvin, U.mole, U.candela]
+    n = 0
+
+    def bad(name, channel, observed, expected):
+        ctx.violation(f"C20:channel:{name}:{channel}",
+            f"constant {name} read through {channel} ({when}) gives {observed}, its attributes (checked against the reference) give {expected}",
+            {"kind": "violation", "item": name, "input": {"constant": name, "channel": channel, "when": when},
+             "observed": str(observed), "expected": str(expected),
+             "theorem_or_tie": "agreement of the object attributes with the SI registry and sympy.physics.units.convert_to"},
+            found_input=True)
+
+    for r in rows:
+        if r.get("error") is not None:
+            continue
+        name = r["name"]
+        q = getattr(mod, name, None)
+        if not isinstance(q, SymQ):
+            continue
+        n += 1
+        want_dim = tuple(str(x) for x in r["dim"])
+        try:
+            got = tuple(str(x) for x in qx.dim_vec(SI.get_quantity_dimension(q)))
+        except Exception as e:  # pylint: disable=broad-except
+            got = f"{type(e).__name__}: {e}"[:120]
+        if got != want_dim:
+            bad(name, "SI.get_quantity_dimension", got, want_dim)
+        try:
+            reg = exact(SI.get_quantity_scale_factor(q)) / Rational(1000)**Rational(r["dim"][1].numerator, r["dim"][1].denominator)
+            ok = abs(sympy.N(reg / r["si"] - 1, 30)) < 1e-12 if r["si"] != 0 else reg == 0
+        except Exception as e:  # pylint: disable=broad-except
+            reg, ok = f"{type(e).__name__}: {e}"[:120], False
+        if not ok:
+            bad(name, "SI.get_quantity_scale_factor", reg if isinstance(reg, str) else sympy.N(reg, 17), sympy.N(r["si"], 17))
+        try:
+            conv = sym_convert_to(q, base_units)
+            powers = conv.as_powers_dict()
+            exps = tuple(str(Fraction(int(sympy.Rational(powers.get(u, 0)).p), int(sympy.Rational(powers.get(u, 0)).q)))
+                for u in base_units)
+            val = conv.subs({u: 1 for u in base_units})
+            if val.atoms(SymQ):
+                raise ValueError(f"not expressed in base units: {conv}")
+            ok = exps == want_dim[:7] and abs(sympy.N(exact(val) / r["si"] - 1, 30)) < 1e-12
+            shown = f"{sympy.N(val, 17)} with base-unit exponents {exps}"
+        except Exception as e:  # pylint: disable=broad-except
+            ok, shown = False, f"{type(e).__name__}: {e}"[:160]
+        if not ok:
+            bad(name, "sympy.physics.units.convert_to(c, SI base units)", shown,
+                f"{sympy.N(r['si'], 17)} with base-unit exponents {want_dim[:7]}")
+    ctx.coverage["channel_checks"] = ctx.coverage.get("channel_checks", 0) + 3 * n
+
+
+def shadow_check(ctx, mod, names):
+    """Importing a submodule binds it as an attribute of its parent package: a file or directory of symplyphysics/quantities
+    named like an exported constant replaces that constant as soon as somebody imports it."""
+    root = Path(mod.__file__).resolve().parent
+    entries = sorted(p.name for p in root.iterdir() if not p.name.startswith("__"))
+    for e in entries:
+        stem = e.split(".")[0]
+        if stem in names:
+            ctx.violation(f"C20:shadow:{stem}", f"symplyphysics/quantities/{e} has the name of the exported constant {stem}: "
+                f"`import symplyphysics.quantities.{stem}` rebinds quantities.{stem} to a module",
+                {"kind": "violation", "item": stem, "input": {"constant": stem, "operation": f"import symplyphysics.quantities.{stem}"},
+                 "observed": f"directory entry {e}", "expected": "no submodule named like an exported constant",
+                 "theorem_or_tie": "directory listing of symplyphysics/quantities vs exported names"}, found_input=True)
+    ctx.coverage["quantities_directory_entries"] = entries
+
+
+def reference_recheck(ctx, rows, when):
+    """Numeric re-comparison of a fresh reading with the reference table (the kernel-checked lemmas were about the first)."""
+    refs, tols, dims = ctx.refs
+    for r in rows:
+        n = r["name"]
+        if r.get("error") is not None or n not in refs or n not in dims:
+            continue
+        rel = sympy.N(r["si"] / refs[n] - 1, 50)
+        tol = max([x for x in (tols.get(n), r["stated"]) if x is not None])
+        if abs(rel) > tol or tuple(r["dim"]) != tuple(dims[n]):
+            ctx.violation(f"C20:reread:{n}", f"constant {n} read {when} = {sympy.N(r['si'], 15)} with dimension "
+                f"{[str(x) for x in r['dim']]}; reference {sympy.N(refs[n], 15)} {[str(x) for x in dims[n]]} (deviation {float(rel):.3e}, tolerance {float(tol):.3e})",
+                {"kind": "violation", "item": n, "input": {"constant": n, "when": when}, "observed": str(sympy.N(r["si"], 20)),
+                 "expected": str(sympy.N(refs[n], 20)), "relative_deviation": float(rel), "tolerance": float(tol),
+                 "theorem_or_tie": "re-read table vs Model/Consts.v"}, found_input=True)
+
+
 def stability(ctx, rows_first):
     """After the table has been read and proved: exercise the constants, re-read, require the first reading."""
     import importlib  # pylint: disable=import-outside-toplevel
@@ -419,12 +513,41 @@ def stability(ctx, rows_first):
             if reported >= 12:
                 return
             reported += 1
-            ctx.violation(f"C20:stability:{name}:{fld}:{operation}",
-                f"exported constant {name} changed its {fld} from {before!r} to {after!r} after `{operation}`",
+            what = (f"exported constant {name} changed its {fld} from {before!r} to {after!r} after `{operation}`" if fld != "presence"
+                else f"quantities.{name} is {'no longer' if before else 'now'} a Quantity after `{operation}` "
+                     f"(now {type(getattr(mod, name, None)).__name__})")
+            ctx.violation(f"C20:stability:{name}:{fld}:{operation}", what,
                 {"kind": "violation", "item": name, "input": {"constant": name, "operation": operation, "stage": kind},
                  "observed": {fld: after}, "expected": {fld: before},
                  "theorem_or_tie": "stability of the catalogue: the table read before and after use must be identical"},
                 found_input=True)
+
+    # other threads / more main-thread constructions: generated names key the SI registries
+    import threading  # pylint: disable=import-outside-toplevel
+    from symplyphysics import Quantity, units  # pylint: disable=import-outside-toplevel
+    def make_some():
+        for k in range(1, 41):
+            Quantity(k * units.meter)
+            Quantity(k)
+    for label in ("80 quantities constructed in a second thread", "80 quantities constructed in the main thread",
+            "80 quantities constructed in each of 4 concurrent threads"):
+        try:
+            if "main" in label:
+                make_some()
+            else:
+                ts = [threading.Thread(target=make_some) for _ in range(4 if "4" in label else 1)]
+                for t in ts:
+                    t.start()
+                for t in ts:
+                    t.join()
+        except Exception as e:  # pylint: disable=broad-except
+            outcomes[label] = {type(e).__name__: 1}
+        new = snapshot(mod)
+        d = snap_diff(cur, new)
+        if d:
+            report(d, label, "threads")
+            cur = new
+    reference_recheck(ctx, read_catalogue(ctx), "after quantities were constructed in other threads")
 
     for name in names:
         c = getattr(mod, name)
@@ -449,6 +572,31 @@ def stability(ctx, rows_first):
                 cur = new
     ctx.coverage["stability_operations"] = nops
     ctx.coverage["stability_operation_outcomes"] = outcomes
+
+    # importing submodules binds them as attributes of the parent package
+    import pkgutil  # pylint: disable=import-outside-toplevel
+    import symplyphysics  # pylint: disable=import-outside-toplevel
+    walked = 0
+    pkgs = [(mod.__path__, mod.__name__ + ".")] + ([] if ctx.quick else [(symplyphysics.__path__, "symplyphysics.")])
+    for path, prefix in pkgs:
+        for info in pkgutil.walk_packages(path, prefix, onerror=lambda _n: None):
+            try:
+                importlib.import_module(info.name)
+                walked += 1
+            except Exception:  # pylint: disable=broad-except
+                continue
+            if info.name.startswith(mod.__name__ + ".") or walked % 50 == 0:
+                new = snapshot(mod)
+                d = snap_diff(cur, new)
+                if d:
+                    report(d, f"import {info.name}", "submodules")
+                    cur = new
+    new = snapshot(mod)
+    d = snap_diff(cur, new)
+    if d:
+        report(d, "importing every submodule of the package", "submodules")
+        cur = new
+    ctx.coverage["stability_submodules_imported"] = walked
 
     users = catalogue_users(ctx)
     sample = users if not ctx.quick else ctx.rng.sample(users, min(30, len(users)))
@@ -500,7 +648,10 @@ def stability(ctx, rows_first):
     d = snap_diff(base, final)
     seen = {(v.replay.get("item"), ) for v in ctx.violations if v.key.startswith("C20:stability:")}
     report([x for x in d if (x[0],) not in seen], "the whole stability stage", "final")
-    rows_again = {r["name"]: r for r in read_catalogue(ctx)}
+    rows_final = read_catalogue(ctx)
+    reference_recheck(ctx, rows_final, "at the end of the stability stage")
+    channels(ctx, mod, rows_final, "at the end of the stability stage")
+    rows_again = {r["name"]: r for r in rows_final}
     for r in rows_first:
         a = rows_again.get(r["name"])
         same = a is not None and a.get("error") == r.get("error") and a.get("term") == r.get("term") and a.get("dim") == r.get("dim")
@@ -532,6 +683,9 @@ def run(ctx):
     import importlib  # pylint: disable=import-outside-toplevel
     rows = read_catalogue(ctx)
     ctx.snapshot0 = snapshot(importlib.import_module(MODULE))
+    ctx.refs = (refs, tols, dims)
+    channels(ctx, importlib.import_module(MODULE), rows, "right after import")
+    shadow_check(ctx, importlib.import_module(MODULE), {r["name"] for r in rows})
     good = [r for r in rows if r["error"] is None]
     by_name = {r["name"]: r for r in good}
 
